@@ -58,7 +58,7 @@ func c06Arbitrary(mode int) {
 	pq := &ProcessedQuery{Intent: IntentGeneral}
 	switch mode {
 	case 0: // two keywords
-		pq.Keywords = []string{vSymWord("kw", 2, 3), vSymWord("kw", 2, 3)}
+		pq.Keywords = []string{vSymWord("kw", 2, 3), vSymWord("kw", 1, 3)} // one-letter content words ("c", "x") are keywords too
 	case 1: // keyword + action
 		pq.Keywords = []string{vSymWord("kw", 2, 4)}
 		pq.Actions = []string{vSymWord("act", 4, 4)}
@@ -82,7 +82,7 @@ func VerifHarness_C06_EnhancedI()  { c06Arbitrary(3) }
 func c06Process(nwords, maxLen int) {
 	q := vSymWord("w1", 2, maxLen)
 	for i := 1; i < nwords; i++ {
-		q = q + " " + vSymWord("w", 2, maxLen)
+		q = q + " " + vSymWord("w", 1, maxLen)
 	}
 	qp := NewQueryProcessor()
 	pq := qp.ProcessQuery(q)
